@@ -62,7 +62,7 @@ def beh_from_alias(out):
 
 def asis_keys(tier):
     """a, b, d, e are repaired in /repo (fix: commits): their counterexamples are replayed in the thorough tier only."""
-    return ["c", "f"] if tier == "quick" else list(ASIS)
+    return ["b", "c", "f"] if tier == "quick" else list(ASIS)   # b and c are still in the code (known findings)
 
 
 def asis_cfg(k):
